@@ -405,6 +405,29 @@ func (g *Gen) Expr(typ string, depth int) string {
 	return "nil"
 }
 
+// CaseVariantRead reads a property of a data object through a spelling that differs
+// from one of its keys only in case and is not itself a key ("" when there is none).
+func (g *Gen) CaseVariantRead() string {
+	var out []string
+	for _, v := range g.byType("obj") {
+		have := map[string]bool{}
+		for _, k := range v.keys {
+			have[k.name] = true
+		}
+		for _, k := range v.keys {
+			for _, c := range []string{strings.ToLower(k.name), strings.ToUpper(k.name), strings.ToUpper(k.name[:1]) + strings.ToLower(k.name[1:])} {
+				if !have[c] {
+					out = append(out, "{{ "+v.name+"."+c+" }}")
+				}
+			}
+		}
+	}
+	if len(out) == 0 {
+		return ""
+	}
+	return Pick(g.R, out)
+}
+
 func (g *Gen) objWithKey(typ string) string {
 	var cands []string
 	for _, v := range g.byType("obj") {
